@@ -51,6 +51,7 @@ package checkgroup
 //@   opt abandon-props C15
 //@   like functype::checkgroup.CheckFunc
 //@   requires f != nil
+//@   ensures[C03,C01] forwards-the-sub-check-answer: recvd(childCh) == 1 ==> lastsent(resultCh).Err == hist(childCh, 0).Err && lastsent(resultCh).Membership == hist(childCh, 0).Membership
 
 // ---- Checkgroup interface (ASSUMED: the concurrent consumer is outside sequential
 // contracts; what can be proved of it locally is proved below).
